@@ -5,6 +5,9 @@ package api
 import (
 	"context"
 	"errors"
+	"fmt"
+	"math"
+	"strings"
 	"time"
 
 	"github.com/hrissan/tdigest"
@@ -37,7 +40,8 @@ type VerifTableReq struct {
 	NTags    int   // tags 0..NTags-1 are declared raw in the metric meta
 	LODs     []VerifLOD
 	// Store is the stub storage: handler-what index q (position in getHandlerWhat's result), LOD index k.
-	Store func(q, k int) ([][]VerifRow, error)
+	// qry = the storage query's selectors as the function under test built them ("what:arg‰" x 7), k = LOD index.
+	Store func(qry string, k int) ([][]VerifRow, error)
 }
 
 type VerifOutRow struct {
@@ -136,11 +140,6 @@ func VerifGetTable(req VerifTableReq) (rows []VerifOutRow, hasMore bool, err err
 	for i, w := range req.Whats {
 		ws[i] = promql.SelectorWhat{Digest: promql.DigestWhat(w)}
 	}
-	// same computation the function under test performs first (it sorts ws in place, deterministically)
-	qIndex := map[tsWhat]int{}
-	for q, hw := range h.getHandlerWhat(append([]promql.SelectorWhat(nil), ws...)) {
-		qIndex[hw.qry] = q
-	}
 	lods := make([]data_model.LOD, len(req.LODs))
 	kIndex := map[int64]int{}
 	for k, l := range req.LODs {
@@ -161,12 +160,11 @@ func VerifGetTable(req VerifTableReq) (rows []VerifOutRow, hasMore bool, err err
 		location:       loc,
 	}
 	load := func(_ context.Context, _ *requestHandler, pq *queryBuilder, lod data_model.LOD, _ bool) ([][]tsSelectRow, error) {
-		q, ok1 := qIndex[pq.what]
 		k, ok2 := kIndex[lod.FromSec]
-		if !ok1 || !ok2 {
+		if !ok2 {
 			return nil, ErrVerifUnknownQuery
 		}
-		gs, err := req.Store(q, k)
+		gs, err := req.Store(verifQryKey(pq.what), k)
 		if err != nil {
 			return nil, err
 		}
@@ -289,4 +287,44 @@ func VerifLess(a, b RowMarker) bool {
 func VerifLessThan(m RowMarker, r VerifRow, orEq, fromEnd bool) bool {
 	row := verifToRow(r)
 	return lessThan(m, row, row.tsTags.stag[format.StringTopTagIndexV3], orEq, fromEnd)
+}
+
+func verifQryKey(w tsWhat) string {
+	var sb strings.Builder
+	for i, v := range w {
+		if i > 0 {
+			sb.WriteString(",")
+		}
+		fmt.Fprintf(&sb, "%d:%d", int(v.What), int(math.Round(v.Argument*1000)))
+	}
+	return sb.String()
+}
+
+// VerifHandlerWhatFull runs the real getHandlerWhat on the requested functions (promql.DigestWhat values, request order)
+// and returns the request list as it is afterwards (the function sorts it in place; GetTableResp.What reports it),
+// and per storage query its functions (sel) and its selectors (qry, rendered "what:arg‰" x 7).
+func VerifHandlerWhatFull(whats []int) (sorted []int, sel [][]int, qry []string) {
+	h := &requestHandler{Handler: &Handler{}}
+	ws := make([]promql.SelectorWhat, len(whats))
+	for i, w := range whats {
+		ws[i] = promql.SelectorWhat{Digest: promql.DigestWhat(w)}
+	}
+	for _, hw := range h.getHandlerWhat(ws) {
+		var ds []int
+		for _, s := range hw.sel {
+			ds = append(ds, int(s.Digest))
+		}
+		sel = append(sel, ds)
+		qry = append(qry, verifQryKey(hw.qry))
+	}
+	for _, w := range ws {
+		sorted = append(sorted, int(w.Digest))
+	}
+	return sorted, sel, qry
+}
+
+// VerifSelector renders promql.DigestWhat(d).Selector() as "what:arg‰".
+func VerifSelector(d int) string {
+	v := promql.DigestWhat(d).Selector()
+	return fmt.Sprintf("%d:%d", int(v.What), int(math.Round(v.Argument*1000)))
 }
